@@ -112,6 +112,16 @@ impl CoreClassStore {
             .as_gc()
     }
 
+    /// Whether `class` is one of the built-in classes whose instances are native objects or values
+    /// rather than `ObjInstance`s (their native methods only work on that representation).
+    pub(crate) fn is_native_class(&self, class: Gc<ObjClass>) -> bool {
+        {% for spec in class_specs %}{% if spec.kind == "NativeValue" or spec.kind == "NativeObject" %}
+        if self.{{ spec.name }}() == class {
+            return true;
+        }{% endif %}{% endfor %}
+        false
+    }
+
     {% for spec in class_specs %}
     #[allow(dead_code)]
     pub(crate) fn {{ spec.name }}(&self) -> Gc<ObjClass> {
